@@ -631,6 +631,10 @@ func (f *fwd) onAttempt(a *world.Attempt) {
 			}
 		case 6:
 			a.Node.Stalled = true
+			if f.e.C.Choose("stall-stops-reading", 2) == 1 {
+				a.Node.StallHard(64 + f.e.C.Choose("stall-sndbuf", 1000))
+				w.Stat("fault.stall-node-stops-reading")
+			}
 		case 7:
 			for _, n := range f.liveNodes() {
 				for _, c := range n.LiveConns() {
